@@ -14,7 +14,7 @@ LEVEL = "exploration"
 RULE = ("E1/E2 over a BF2 generator: ('blob', type, size, line size, grouping) every image size 1..300 x line sizes {1,16,250}, the maximal line sizes 251/252, lines with trailing checksum bytes, plus page crossings "
         "{65535,65536,65537,131072,200000}, one group per page and single group; ('gap', lines, at, kind) a gap / overlap / non-zero start at "
         "EVERY line index of images of 1..8 lines; ('compat', ...) BF2-compatible sections incl. trailing checksum bytes; ('types', t) every tag "
-        "type 0x30..0xA8 as section start; ('instr', i) instruction variants (release/debug versions, SELECT special cases / 01 01 hhhh / invalid, "
+        "type 0x30..0xA8 as section start; ('types2', t, first, where) every tag type 0x00..0xFF as the group following a pending / closed section of 3 kinds; ('instr', i) instruction variants (release/debug versions, SELECT special cases / 01 01 hhhh / invalid, "
         "CHECK_FWVER, CRC, every SELECT_IF protocol, BF3 marker on/off); ('multi', ...) section orders incl. ignored prepare/activate sections; "
         "('sm', events) EVERY event sequence of length <= 5 (6 thorough) over 9 event kinds rendered to text and imported; ('unpack', n, gaps) "
         "direct unpack/convert of memory images with gaps at every subset of <= 3 positions; ('filter', bytes) every platform filter of <= 3 "
@@ -118,6 +118,11 @@ def cases(ctx):
                 yield ("compat", t, size, ls, "page")
     for t in range(0x30, 0xA9):
         yield ("types", t)
+    # every tag type as a group that FOLLOWS a section whose data is still pending / already closed, for 3 kinds of first section
+    for t in range(0x00, 0xFE):          # FE / FF are the group markers, not data tag types
+        for first in (0x35, 0x3D, 0x84):
+            for where in ("pending", "closed"):
+                yield ("types2", t, first, where)
     for i in range(len(INSTR_CASES)):
         yield ("instr", i)
     for order in product(("blob35", "ign34", "ign48", "main84", "blob3D", "loader70"), repeat=3):
@@ -274,6 +279,15 @@ def run_case(ctx, case):
             evs.append(("instr", "SELECT_IF", {"PROTOCOL": "BRP-SER"}))
         evs += [("group", B.image_lines(t, image(ctx, "ty", 6), 4, extra=b"\x01"))]
         compare(o, evs, "section with tag type %02X" % t)
+        return o
+    if kind == "types2":
+        _, t, first, where = case
+        evs = list(HEAD)
+        evs.append(("group", B.image_lines(first, image(ctx, "t2a", 8), 4, extra=b"\x01" if first == 0x84 else b"")))
+        if where == "closed":
+            evs.append(("instr", "REBOOT", {}))
+        evs.append(("group", B.image_lines(t, image(ctx, "t2b", 6), 3, index0=7, extra=b"\x02")))
+        compare(o, evs, "tag type %02X after a %s %02X section" % (t, where, first))
         return o
     if kind == "instr":
         name, extra_evs, t = INSTR_CASES[case[1]]
